@@ -8,7 +8,6 @@ import (
 	"fmt"
 	"os"
 	"path/filepath"
-	"strings"
 
 	"github.com/JunNishimura/Goit/internal/file"
 	"github.com/JunNishimura/Goit/internal/object"
@@ -37,7 +36,7 @@ func add(rootGoitPath, path string, index *store.Index) error {
 	if err != nil {
 		return err
 	}
-	cleanedRelPath := strings.ReplaceAll(relPath, `\`, "/") // replace backslash with slash
+	cleanedRelPath := filepath.ToSlash(relPath) // the index uses slash-separated paths on every platform
 	byteRelPath := []byte(cleanedRelPath)
 
 	// write object to file first: the index must never name a blob that is not stored
@@ -65,7 +64,7 @@ func relativeToCwd(arg string) string {
 			}
 		}
 	}
-	return strings.ReplaceAll(cleaned, `\`, "/")
+	return filepath.ToSlash(cleaned)
 }
 
 // addCmd represents the add command
@@ -136,7 +135,7 @@ var addCmd = &cobra.Command{
 					if err != nil {
 						return err
 					}
-					if client.Ignore.IsIncluded(strings.ReplaceAll(relPath, `\`, "/"), client.Idx) {
+					if client.Ignore.IsIncluded(filepath.ToSlash(relPath), client.Idx) {
 						continue
 					}
 					if err := add(client.RootGoitPath, filePath, client.Idx); err != nil {
